@@ -322,7 +322,6 @@ impl Sess {
 /// driver knows the number of messages it wrote.  Fallbacks (no verdict here, TLC judges what was recorded): the final count
 /// reported once and 3 s of silence; or 20 s of silence.
 fn remote_run(port: u16, path: &str, n: u64, plan: &Plan) -> (Vec<Ev>, String, Option<(BTreeMap<u32, u64>, u64)>) {
-    let tconn = Instant::now();
     let conn = match Conn::connect(port, Duration::from_secs(20)) {
         Ok(c) => c,
         Err(e) => return (vec![Ev::Other(json!({"ev":"connect_failed","why":trunc(&e, 100)}))], "dead".into(), None),
@@ -337,9 +336,6 @@ fn remote_run(port: u16, path: &str, n: u64, plan: &Plan) -> (Vec<Ev>, String, O
             break 'run;
         }
         let t0 = Instant::now();
-        if std::env::var("X05_TIMING").is_ok() {
-            eprintln!("open reply after {:?}", tconn.elapsed());
-        }
         s.last_frame = t0;
         let mut paused = false;
         let mut pause_done = plan.pause.is_none();
@@ -382,9 +378,6 @@ fn remote_run(port: u16, path: &str, n: u64, plan: &Plan) -> (Vec<Ev>, String, O
             }
         }
         // idle: two more complete server loop iterations
-        if std::env::var("X05_TIMING").is_ok() {
-            eprintln!("finished after {:?} ({} roundtrips)", tconn.elapsed(), s.sentinel);
-        }
         s.roundtrip();
         s.roundtrip();
         if plan.counts && !s.dead {
@@ -408,13 +401,7 @@ fn remote_run(port: u16, path: &str, n: u64, plan: &Plan) -> (Vec<Ev>, String, O
             how = "dead".into();
             break 'run;
         }
-        if std::env::var("X05_TIMING").is_ok() {
-            eprintln!("counts done after {:?} ({} roundtrips)", tconn.elapsed(), s.sentinel);
-        }
         let r = s.cmd("close");
-        if std::env::var("X05_TIMING").is_ok() {
-            eprintln!("closed after {:?}", tconn.elapsed());
-        }
         if !r.as_deref().map(|t| t.starts_with("ok:")).unwrap_or(false) {
             s.evs.push(Ev::Other(json!({"ev":"unexpected_reply","to":"close","text":trunc(&r.unwrap_or_default(), 200)})));
             how = "dead".into();
